@@ -219,8 +219,8 @@ func pendingSeeds(fn *ssa.Function, nt *types.Named, field string) []ssa.Value {
 // protocol loop goes on, so nothing is pending when done closes and lines and messages stay in the order parsed. A
 // buffered channel breaks both: what is still queued when the session ends is dropped, and select takes from two
 // non-empty queues in random order (the email event overtakes the commands that produced it).
-func c04ReporterQueues(c *Ctx) {
-	c.Explanation += " Channels drained by the smtp reporter in one select next to its termination arm are unbuffered."
+func c04ReporterQueues(c *Ctx, floor int, rels ...string) {
+	c.Explanation += " Channels drained by a reporting goroutine (smtp; ftp when it has one of that form) in one select next to its termination arm are unbuffered."
 	p := c.P
 	const rule = "reporter-handover-synchronous"
 	var makesOf func(v ssa.Value, depth int) ([]*ssa.MakeChan, bool)
@@ -275,7 +275,7 @@ func c04ReporterQueues(c *Ctx) {
 			}
 			var out []*ssa.MakeChan
 			sites := 0
-			for _, g := range p.FuncsIn("services/smtp") {
+			for _, g := range p.FuncsIn(rels...) {
 				for _, call := range Calls(g) {
 					if call.Common().StaticCallee() != fn || idx >= len(call.Common().Args) {
 						continue
@@ -293,7 +293,7 @@ func c04ReporterQueues(c *Ctx) {
 		return nil, false
 	}
 	n := 0
-	for _, fn := range p.FuncsIn("services/smtp") {
+	for _, fn := range p.FuncsIn(rels...) {
 		for _, b := range fn.Blocks {
 			for _, in := range b.Instrs {
 				sel, ok := in.(*ssa.Select)
@@ -331,7 +331,8 @@ func c04ReporterQueues(c *Ctx) {
 			}
 		}
 	}
-	c.Floor(rule, 3, "smtp reporter: done, message and line arms")
+	c.Ok(rule, "reporting goroutines that select", "-", fmt.Sprintf("%d receive arms examined in %v", n, rels))
+	c.Floor(rule, floor, "smtp reporter: done, message and line arms")
 }
 
 // emitsAfter: the function sends an event somewhere (it is a reporter).
